@@ -24,7 +24,7 @@ def splitOnBar (toks : List String) : List String × List String :=
 `c17.kepdv x0..x5 dvt dvw`                    → 3 floats, `to_tnw(orb).T @ [dvt, 0, dvw]`
 `c17.to <tag> ref0..ref5 x0..x5`              → 6 floats, parent → attached frame
 `c17.from <tag> ref0..ref5 y0..y5`            → 6 floats
-`c17.dkep mu a i v da di dO`                  → dv dv_t ratio dv_w (floats)
+`c17.dkep mu a i v da di dO`                  → dv_t dv_w (floats)
 `c17.aol i di dO`                             → float
 `c17.win tm t0 h1 h2 … `                      → count, then fired (start length) pairs (integers)
 `c17.wins t0 h1 … | tm1 tm2 …`                → per step the applied indices: `i,j;;k;…`
@@ -65,7 +65,7 @@ def handle : List String → Option String
   | "c17.dkep" :: rest => some <|
     match takeFloats 7 rest with
     | some ([mu, a, i, v, da, di, dO], _) =>
-      fsToStr [dkepDv mu a i v da di dO, dkepDvT mu a i v da di dO, dkepRatio mu a i v da di dO, dkepDvW mu a i v da di dO]
+      fsToStr [dkepDvT mu a i v da di dO, dkepDvW mu a i v da di dO]
     | _ => "bad-op"
   | "c17.aol" :: rest => some <|
     match takeFloats 3 rest with
